@@ -63,10 +63,25 @@ Example C13_spree_expansion_exists : exists o s ev,
   0 < o_sme o /\ snd (poll_decision o s) = false /\ k (step_iter o s ev) = k s + 1.
 Proof. exact spree_expansion_exists. Qed.
 
-(* A run reported as stopped by the mesh tolerance has mesh exponent below tol_mesh's. *)
+(* An iteration that ends with message 3 (stopped by the mesh tolerance) leaves a mesh exponent below
+   tol_mesh's.  The premise [exn (step_iter o s ev) = false] is needed at the level of ONE step from an
+   ARBITRARY state: if the target raises during the iteration the step returns the state with its old
+   message, and an arbitrary (unreachable) non-finished s may already carry msg = 3.  It is implied by
+   [fin (step_iter o s ev) = true], and the run-level theorem below needs no such premise. *)
 Theorem C13_tolmesh_msg :
   forall (o : opts) (s : st) (ev : iter_ev),
     o_sme o = 0 -> fin s = false -> exn s = false ->
+    exn (step_iter o s ev) = false ->
     msg (step_iter o s ev) = 3 -> k (step_iter o s ev) < o_tolmesh o.
 Proof. exact tolmesh_msg. Qed.
 Print Assumptions C13_tolmesh_msg.
+
+(* Run level, every oracle stream: a run whose message is 3 is finished and its final mesh exponent is
+   below tol_mesh's (reachable non-finished states carry message 0, so no exception can fake it). *)
+Theorem C13_tolmesh_msg_run :
+  forall (k0 ks0 : Z) (o : opts) (l : list init_call) (fsd0 : Q) (evs : list iter_ev),
+    o_sme o = 0 ->
+    let s := run k0 ks0 o l fsd0 evs in
+    msg s = 3 -> fin s = true /\ k s < o_tolmesh o.
+Proof. exact tolmesh_msg_run. Qed.
+Print Assumptions C13_tolmesh_msg_run.
